@@ -454,3 +454,63 @@ Proof.
   - intros size Hs. assert (Hin : In (Z.to_nat size) (seq 1 (Z.to_nat (coll_max log2 max)))) by (apply in_seq; lia).
     specialize (H3 _ Hin). cbv zeta in H3. rewrite Z2Nat.id in H3 by lia. apply andb_true_iff in H3 as [Hx Hy]. split; [apply Z.leb_le; exact Hx|apply c_find_og_array; exact Hy].
 Qed.
+
+(* ---------- array requests: progress for the collection over the intrusive list ---------- *)
+Lemma ur_prog_arr g s bytes : UR g s -> ug_ns g < bytes -> exists g' res, ugstep g (UAllocArr bytes) = Some (g', res).
+Proof.
+  intros _ Hb. cbn [ugstep]. unfold ug_ns in Hb. destruct (Z.ltb_spec (u_ns (ug_l g)) bytes); [|lia].
+  destruct (u_alloc_array (ug_l g) bytes) as [[x l']|]; eexists _, _; reflexivity.
+Qed.
+Lemma link_run_cons2 x y tl step : link_run (x :: y :: tl) step = if x + step =? y then S (link_run (y :: tl) step) else 1%nat.
+Proof. reflexivity. Qed.
+Lemma link_run_ublock : forall cnt m step rest, 0 < step -> (1 <= cnt)%nat -> (cnt <= link_run (ublock cnt m step ++ rest) step)%nat.
+Proof.
+  induction cnt as [|c IH]; intros m step rest Hs Hc; [lia|]. destruct c as [|c].
+  - cbn. destruct rest as [|y tl]; [lia|]. destruct (m + step =? y); lia.
+  - change (ublock (S (S c)) m step ++ rest) with (m :: (m + step) :: (ublock c (m + step + step) step ++ rest)).
+    rewrite link_run_cons2, Z.eqb_refl. specialize (IH (m + step) step rest Hs ltac:(lia)).
+    change (ublock (S c) (m + step) step ++ rest) with ((m + step) :: (ublock c (m + step + step) step ++ rest)) in IH. lia.
+Qed.
+Lemma ur_prog_arr_after_ins g1 rs l g2 m cap bytes : UR g1 {| us_rs := rs; us_l := l |} -> ugstep g1 (UIns m cap) = Some (g2, None) ->
+  ug_ns g1 < bytes -> slots_needed (ug_ns g1) bytes <= cap / ug_ns g1 -> exists g' x, ugstep g2 (UAllocArr bytes) = Some (g', Some x).
+Proof.
+  intros Hur Hins Hb Hfit. pose proof Hur as ((_ & Hns) & _). unfold ug_ns in *. cbn [ugstep] in Hins.
+  destruct (_ && _) in Hins; [|discriminate]. inversion Hins; subst g2; clear Hins. cbn [ugstep ug_l ug_live].
+  unfold u_alloc_array, u_nodes_for, u_insert. cbn [u_ns u_nodes].
+  set (ns := u_ns (ug_l g1)) in *. destruct (Z.ltb_spec ns bytes); [|lia]. destruct (Z.leb_spec bytes ns); [lia|].
+  assert (Esl : slots_needed ns bytes = (bytes + ns - 1) / ns) by (unfold slots_needed; destruct (Z.leb_spec bytes ns); [lia|reflexivity]). rewrite Esl in Hfit.
+  set (need := Z.to_nat ((bytes + ns - 1) / ns)). set (cnt := Z.to_nat (cap / ns)).
+  assert (Hq : 1 <= (bytes + ns - 1) / ns) by (apply Z.div_le_lower_bound; lia).
+  assert (Hnc : (1 <= need <= cnt)%nat) by (unfold need, cnt; lia).
+  pose proof (link_run_ublock cnt m ns (u_nodes (ug_l g1)) Hns ltac:(lia)) as Hrun.
+  assert (Hfind : u_find (S (length (ublock cnt m ns ++ u_nodes (ug_l g1)))) (ublock cnt m ns ++ u_nodes (ug_l g1)) ns need 0 = Some 0%nat).
+  { cbn [u_find]. destruct (ublock cnt m ns ++ u_nodes (ug_l g1)) as [|y tl] eqn:E.
+    - destruct cnt; [lia|]. cbn in E. discriminate.
+    - destruct (Nat.leb_spec need (link_run (y :: tl) ns)); [reflexivity|lia]. }
+  rewrite Hfind. eexists _, _. reflexivity.
+Qed.
+Lemma intr_usable_mult ns k : 0 < ns -> 1 <= k -> k * ns < 2^64 -> ns <= intr_usable ns (k * ns).
+Proof. intros Hns Hk Hb. apply (proj2 (intr_usable_ge ns (k * ns) Hns ltac:(nia))). nia. Qed.
+
+Definition uarray_answers_ok64 (log2 : bool) := array_answers_ok64 ug ug_ns ugstep (coll_bkt log2) intr_usable.
+Theorem ucoll_alloc_array_progress log2 s sp size bytes a1 a2 : UCPR s sp -> UExt log2 s -> 0 < size <= cc_max _ s -> size <= bytes ->
+  uarray_answers_ok64 log2 s sp size a1 a2 ->
+  exists s' r evs, uc_step log2 s (CAllocArray size bytes a1 a2) = Some (s', r, evs) /\ UExt log2 s'.
+Proof.
+  apply (alloc_array_progress ug ug_ns ug_free ugstep (coll_bkt log2) intr_usable LIntrusive UR ur_list ur_pos ustep_refines intr_usable_nodes ugstep_ns ur_ranges
+           ur_prog_alloc ur_prog_ins intr_usable_mono_ns intr_usable_mono_size ur_prog_arr ur_prog_arr_after_ins intr_usable_mult).
+Qed.
+
+(* ---------- reserve() on the three collections ---------- *)
+Theorem ucoll_reserve_refines log2 s sp size cap answer s2 ok evs : UCPR s sp -> 0 <= cap ->
+  (forall addr, answer = Some addr -> CWB sp addr (ar_next (cc_ar _ s))) -> uc_reserve log2 s size cap answer = Some (s2, ok, evs) ->
+  exists sp2, acc_evs sp evs = Some sp2 /\ UCPR s2 sp2 /\ (ok = true -> exists m, In (EIns (coll_bkt log2 size) m cap) evs).
+Proof. apply (reserve_op_refines ug ug_ns ug_free ugstep (coll_bkt log2) intr_usable LIntrusive UR ur_list ur_pos ustep_refines intr_usable_nodes ugstep_ns ur_ranges). Qed.
+Theorem ocoll_reserve_refines log2 s sp size cap answer s2 ok evs : OCPR s sp -> 0 <= cap ->
+  (forall addr, answer = Some addr -> CWB sp addr (ar_next (cc_ar _ s))) -> oc_reserve log2 s size cap answer = Some (s2, ok, evs) ->
+  exists sp2, acc_evs sp evs = Some sp2 /\ OCPR s2 sp2 /\ (ok = true -> exists m, In (EIns (coll_bkt log2 size) m cap) evs).
+Proof. apply (reserve_op_refines og og_ns og_free og_step (coll_bkt log2) intr_usable LIntrusive OR or_list or_pos og_step_refines intr_usable_nodes og_step_ns or_ranges). Qed.
+Theorem scoll_reserve_refines log2 s sp size cap answer s2 ok evs : SCPR s sp -> 0 <= cap ->
+  (forall addr, answer = Some addr -> CWB sp addr (ar_next (cc_ar _ s))) -> sc_reserve log2 s size cap answer = Some (s2, ok, evs) ->
+  exists sp2, acc_evs sp evs = Some sp2 /\ SCPR s2 sp2 /\ (ok = true -> exists m, In (EIns (coll_bkt_me 1%N log2 size) m cap) evs).
+Proof. apply (reserve_op_refines smg sg_ns sg_free sg_step (coll_bkt_me 1%N log2) small_usable LSmall SGR sgr_list sgr_pos sg_step_refines small_usable_nodes sg_step_ns sgr_ranges). Qed.
